@@ -704,3 +704,104 @@ pub fn await_cond(grace_ms: u64, cond: &dyn Fn() -> bool) -> Result<bool, String
         std::thread::sleep(Duration::from_micros(300));
     }
 }
+
+
+// ---------------------------------------------------------------- per-case watchdog (rule 3.5 for whole cases)
+
+static CURRENT_OP: Mutex<Option<(String, u64, u64, i32)>> = Mutex::new(None);
+
+pub struct OpGuard;
+impl Drop for OpGuard {
+    fn drop(&mut self) {
+        *CURRENT_OP.lock().unwrap_or_else(|e| e.into_inner()) = None;
+    }
+}
+
+/// Declare that the calling thread now runs `case` of a family whose cases take milliseconds. If it
+/// is still inside 20 s later while this process and all its descendants are asleep without using
+/// CPU, nothing can ever finish it: the batch reports `<FAMILY>:case-blocks-forever` and ends.
+pub fn op_begin(what: &str, case: u64) -> OpGuard {
+    *CURRENT_OP.lock().unwrap_or_else(|e| e.into_inner()) = Some((what.to_string(), case, now_ns(), gettid()));
+    OpGuard
+}
+
+fn descendants(pid: i32, out: &mut Vec<i32>) {
+    if let Ok(rd) = fs::read_dir(format!("/proc/{}/task", pid)) {
+        for e in rd.flatten() {
+            if let Ok(s) = fs::read_to_string(e.path().join("children")) {
+                for c in s.split_whitespace().filter_map(|x| x.parse::<i32>().ok()) {
+                    if !out.contains(&c) {
+                        out.push(c);
+                        descendants(c, out);
+                    }
+                }
+            }
+        }
+    }
+}
+
+fn tree_snapshot(me: i32) -> Vec<(i32, i32, char, u64)> {
+    let mut pids = vec![std::process::id() as i32];
+    descendants(std::process::id() as i32, &mut pids);
+    let mut v = Vec::new();
+    for p in pids {
+        if let Ok(rd) = fs::read_dir(format!("/proc/{}/task", p)) {
+            for e in rd.flatten() {
+                if let Some(t) = e.file_name().to_str().and_then(|s| s.parse::<i32>().ok()) {
+                    if t == me {
+                        continue;
+                    }
+                    if let Some(s) = task_snap(p, t) {
+                        v.push((p, t, s.state, s.cpu));
+                    }
+                }
+            }
+        }
+    }
+    v
+}
+
+pub fn start_case_watchdog(rep: Arc<Report>, family: String, replay_base: Value) {
+    std::thread::Builder::new()
+        .name("case-watchdog".into())
+        .spawn(move || loop {
+            std::thread::sleep(Duration::from_millis(500));
+            let cur = CURRENT_OP.lock().unwrap_or_else(|e| e.into_inner()).clone();
+            let (what, case, since, tid) = match cur {
+                Some(c) => c,
+                None => continue,
+            };
+            let age_ms = (now_ns() - since) / 1_000_000;
+            if age_ms < 20_000 {
+                continue;
+            }
+            let me = gettid();
+            let a = tree_snapshot(me);
+            std::thread::sleep(Duration::from_millis(1000));
+            let b = tree_snapshot(me);
+            // still the same case?
+            let again = CURRENT_OP.lock().unwrap_or_else(|e| e.into_inner()).clone();
+            if again.as_ref().map(|c| (c.1, c.2)) != Some((case, since)) {
+                continue;
+            }
+            let idle = a.len() == b.len() && a.iter().zip(b.iter()).all(|(x, y)| x.0 == y.0 && x.1 == y.1 && (x.2 == 'S' || x.2 == 'Z') && x.2 == y.2 && x.3 == y.3);
+            let mut replay = replay_base.clone();
+            replay["case"] = json!(case);
+            if idle {
+                let sc = task_snap(std::process::id() as i32, tid).map(|s| syscall_name(s.syscall)).unwrap_or("?");
+                rep.violation(
+                    &format!("{}:case-blocks-forever:{}", family.to_uppercase(), what),
+                    json!({"case": case, "what": what, "blocked_for_ms": age_ms, "thread_in_syscall": sc,
+                        "why": "20 s inside a case that takes milliseconds; every thread of this process and of its children asleep, no CPU used: nothing can finish it"}),
+                    replay,
+                );
+                rep.finish();
+                std::process::exit(0);
+            } else if age_ms > 300_000 {
+                rep.inconclusive(&format!("case {} ({}) still running after {} s with the process tree busy", case, what, age_ms / 1000));
+                rep.finish();
+                std::process::exit(0);
+            }
+        })
+        .expect("spawn watchdog");
+}
